@@ -45,7 +45,9 @@ RULE = (
     "corrupt SOA serial / owner, whole difference sequence missing, rcode, question name/type, wrong base serial, "
     "backwards serial, surplus after the final SOA, constructor misuse) at every position; dns.query.inbound_xfr with "
     "scripted sockets (UDP first, UseTCP retry, ONLY, NEVER, supplied / derived / malformed query); targets plain / "
-    "versioned / B-tree zone x relativize.  Every case is rendered to wire and read back the way "
+    "versioned / B-tree zone x relativize; the way the block is left when the messages run out: an exception as in "
+    "dns.query._inbound_xfr, the caller leaving normally, the caller raising its own exception (at every cut point).  "
+    "Every case is rendered to wire and read back the way "
     "dns.query._inbound_xfr reads (from_wire xfr=True, one_rr_per_rrset only for IXFR) before it reaches Inbound, and the "
     "model reads the same wire-order records with its own parser (c13.parse ties the two); a sample is also fed as "
     "hand-built messages and through dns.query._inbound_xfr with a scripted socket.  Surplus after the final SOA includes "
@@ -75,6 +77,10 @@ SERIAL_POOL = [0, 1, 2, 100, 2**31 - 2, 2**31 - 1, 2**31, 2**31 + 1, 2**32 - 3, 
 
 class Hang(BaseException):
     pass
+
+
+class CallerStop(Exception):
+    """an exception of the caller's own, raised inside the `with Inbound(...)` block"""
 
 
 def _alarm(signum, frame):
@@ -347,6 +353,7 @@ def run_impl(zone, w: World, case, msgs, wires):
                 if req["udp"]:
                     s.close()
         else:
+            end = case.get("end", "eof")
             with dns.xfr.Inbound(zone, rdtype, req["serial"], req["udp"]) as inb:
                 it = iter(msgs)
                 done = False
@@ -355,7 +362,12 @@ def run_impl(zone, w: World, case, msgs, wires):
                     try:
                         m = next(it)
                     except StopIteration:
-                        raise EOFError("EOF")
+                        # the messages ran out before the transfer was done
+                        if end == "eof":
+                            raise EOFError("EOF")  # as dns.query._inbound_xfr: reading the next message raises
+                        if end == "exc":
+                            raise CallerStop()  # the caller gives up with an exception of its own
+                        break  # "quiet": the caller simply stops feeding and leaves the block normally
                     try:
                         done = inb.process_message(m)
                     except BaseException:
@@ -365,8 +377,12 @@ def run_impl(zone, w: World, case, msgs, wires):
                     if done:
                         done_at = i
                     i += 1
+            if end != "eof":
+                res = f"left:{1 if done else 0}"
     except Hang:
         res = "hang"
+    except CallerStop:
+        res = "left:0"
     except BaseException as e:  # noqa: BLE001 - classified below
         res = "err:" + err_class(e)
     finally:
@@ -454,6 +470,7 @@ def eval_xfr(ctx: Ctx, c: dict, collect=None):
     ctx.count(f"req.{c['req']['rdtype']}{'.udp' if c['req']['udp'] else ''}.{exp.get('shape', '?')}")
     ctx.count("zone." + c["zk"] + (".rel" if c["rel"] else ".abs"))
     ctx.count("via." + c.get("via", "direct"))
+    ctx.count("end." + c.get("end", "eof"))
     ctx.count("fault." + fault.split("@")[0])
     ctx.count("outcome." + res)
     # ---- model line
@@ -472,7 +489,7 @@ def eval_xfr(ctx: Ctx, c: dict, collect=None):
             ctx.corr(f"c13.parse one={1 if pmode == 2 else 0} N={w.enc_names()} R={recs_j}", parsed_j, c)
     else:
         names_first = [w.enc_msg(m) for m in msgs]  # interns names before the table is printed
-    op = (f"c13.run fix={fix} tr={0 if trace is None else 1} P={pmode} o={'none' if c.get('no_origin') else enc_labels(w.eff.labels)} t={int(dns.rdatatype.from_text(req['rdtype']))} "
+    op = (f"c13.run fix={fix} tr={0 if trace is None else 1} P={pmode} E={c.get('end', 'eof') if c.get('via') != 'sock' else 'eof'} o={'none' if c.get('no_origin') else enc_labels(w.eff.labels)} t={int(dns.rdatatype.from_text(req['rdtype']))} "
           f"s={'none' if req['serial'] is None else req['serial']} u={1 if req['udp'] else 0} N=%s "
           f"Z={w.enc_keys(keys_before)} M={'|'.join(names_first) or '-'}")
     zs = "=" if keys_after == keys_before else w.enc_keys(keys_after)
@@ -486,7 +503,19 @@ def eval_xfr(ctx: Ctx, c: dict, collect=None):
         ctx.fail("C13/run/hang", what + "the transfer did not return within 3 s (writer admission blocked?)", rep)
     if res.startswith("err:Foreign"):
         ctx.count("foreign." + res)
-    if res != "ok":
+    if res == "left:0":
+        # the caller left the with-block (normally or by its own exception) before any process_message returned
+        # True: nothing may have been applied
+        if after != before:
+            ctx.fail("C13/exit/unfinished-transfer-applied/" + c.get("end", "?"),
+                     what + f"the caller left the block ({c.get('end')}) before the transfer was done, yet the zone changed "
+                     f"({len(before)} -> {len(after)} records, {len(after ^ before)} differ)", rep)
+        if locked:
+            ctx.fail("C13/exit/transaction-left-open", what + "left early and the zone's write transaction was left open", rep)
+    elif res == "left:1":
+        if locked:
+            ctx.fail("C13/exit/transaction-left-open", what + "completed but the zone's write transaction was left open", rep)
+    elif res != "ok":
         if after != before:
             sig = "C13/process_message/error-after-commit/other"
             if res == "err:FormError" and classify_commit_then_raise(c, after):
@@ -500,7 +529,7 @@ def eval_xfr(ctx: Ctx, c: dict, collect=None):
             ctx.fail("C13/exit/transaction-left-open", what + "completed but the zone's write transaction was left open", rep)
     if cls == "valid":
         target = records_dump(w, exp["target"])
-        if res != "ok":
+        if res not in ("ok", "left:1"):
             ctx.fail("C13/valid-stream/raises/" + exp.get("shape", "?"), what + f"a valid {exp.get('shape')} stream raised {res}", rep)
         else:
             if after != target:
@@ -512,7 +541,11 @@ def eval_xfr(ctx: Ctx, c: dict, collect=None):
                 ctx.fail("C13/valid-stream/done-early/" + exp.get("shape", "?"),
                          what + f"process_message reported completion at message {done_at} of {len(msgs)}", rep)
     elif cls == "must-raise":
-        if res == "ok":
+        if res == "left:0" and not exp.get("err"):
+            # a fault that only shows as "the stream ends before the transfer is done": the caller left the block
+            # itself, so nothing is raised — and nothing may have been applied (checked above)
+            pass
+        elif res in ("ok", "left:1", "left:0"):
             ctx.fail("C13/fault-accepted/" + fault.split("@")[0], what + "a detectably malformed stream was accepted without error", rep)
         elif exp.get("err") and res != "err:" + exp["err"]:
             ctx.fail("C13/fault-wrong-error/" + fault.split("@")[0], what + f"expected {exp['err']}, got {res}", rep)
@@ -1235,7 +1268,7 @@ def gen_scmp(rng):
 def case_key(c):
     if c.get("kind", "xfr") != "xfr":
         return json.dumps(c, sort_keys=True, default=str)
-    return (c["zk"], c["rel"], c["origin"], c["req"]["rdtype"], c["req"]["serial"], c["req"]["udp"], c.get("via"),
+    return (c["zk"], c["rel"], c["origin"], c["req"]["rdtype"], c["req"]["serial"], c["req"]["udp"], c.get("via"), c.get("end"),
             json.dumps(c["msgs"]), len(c["v0"]))
 
 
@@ -1285,6 +1318,10 @@ def generate(ctx: Ctx, scale: float, rng, budget_s: float):
                 c2 = dict(c, via="direct")
                 ctx.case(case_key(c2))
                 eval_case(ctx, c2)
+            if c.get("via") != "sock" and rng.chance(1, 2):
+                c3 = dict(c, end=rng.choice(["quiet", "exc"]))
+                ctx.case(case_key(c3))
+                eval_case(ctx, c3)
         for c in fault_cases(rng, st, every=(len(st["recs"]) <= 40)):
             ctx.case(case_key(c))
             eval_case(ctx, c)
@@ -1292,6 +1329,15 @@ def generate(ctx: Ctx, scale: float, rng, budget_s: float):
                 c2 = dict(c, via="direct")
                 ctx.case(case_key(c2))
                 eval_case(ctx, c2)
+            # Inbound driven directly as a context manager: the caller stops feeding and leaves the block
+            # normally ("quiet") or by an exception of its own ("exc") — at every cut point of the stream
+            # (truncate@k), and for a sample of the other faults
+            fk = c["expect"].get("fault", "")
+            if fk.startswith("truncate") or rng.chance(1, 6):
+                for end in (("quiet", "exc") if fk.startswith("truncate") else (rng.choice(["quiet", "exc"]),)):
+                    c3 = dict(c, end=end)
+                    ctx.case(case_key(c3))
+                    eval_case(ctx, c3)
         if st["shape"] == "ixfr" and i % 2 == 0:
             for c in glue_cases(rng, st):
                 ctx.case(case_key(c))
@@ -1331,7 +1377,7 @@ def replay(ctx: Ctx, obj: dict):
 
 
 LEVEL = {
-    "text": "Lean 4 theorems over an executable model of dns/xfr.py as it is (Inbound.__init__/process_message/__exit__, the message loop of dns.query._inbound_xfr, the UDP-first/TCP-retry glue of dns.query.inbound_xfr, make_query/extract_serial_from_query, RFC 1982 comparison) on an abstract zone = set of (owner, type+covers, rdata, ttl) whose put carries the TTL minimisation and singleton rule of dns.rdataset and the CNAME exclusion of dns.node (tables regenerated from the tree): AXFR, multi-step IXFR (any chain of coherent versions with their computed difference sequences, A<->CNAME replacements and TTL changes included), AXFR-style answers, the up-to-date answer, UDP IXFR, UseTCP->TCP retry, AXFR with out-of-zone glue in the body (skipped) and transfers read from the wire (parseAnswer: rrset merging before the first SOA of a message, order kept from it on, TTL clamp) converge to the target version (records, TTLs, serial) for every division of the stream into messages; ixfr_denotes states what any applicable difference sequences yield (protocol-undetectable faults: dropped record, record moved across the delete/add boundary); fault families at every position (truncation, bad rcode/question on any message, wrong base / backwards serial, UseTCP, a UDP datagram that ends early, surplus after the final SOA, first rrset not the apex SOA, a dropped or type-corrupted SOA at every place of an IXFR, owner-corrupted SOA in add and delete mode, a deletion sent twice in any sequence, an addition read in delete mode) raise and leave the zone as it was; for all message sequences whatsoever an error is never reported after a commit (error_implies_unapplied, unconditional since 3feda1c). Tied to the code by a differential correspondence check (state after every message, outcome class, zone with TTLs) and a direct oracle (target equality, must-raise classes, atomicity, no transaction left open, retry behaviour).",
+    "text": "Lean 4 theorems over an executable model of dns/xfr.py as it is (Inbound.__init__/process_message/__exit__, the message loop of dns.query._inbound_xfr, the UDP-first/TCP-retry glue of dns.query.inbound_xfr, make_query/extract_serial_from_query, RFC 1982 comparison) on an abstract zone = set of (owner, type+covers, rdata, ttl) whose put carries the TTL minimisation and singleton rule of dns.rdataset and the CNAME exclusion of dns.node (tables regenerated from the tree): AXFR, multi-step IXFR (any chain of coherent versions with their computed difference sequences, A<->CNAME replacements and TTL changes included), AXFR-style answers, the up-to-date answer, UDP IXFR, UseTCP->TCP retry, AXFR with out-of-zone glue in the body (skipped) and transfers read from the wire (parseAnswer: rrset merging before the first SOA of a message, order kept from it on, TTL clamp) converge to the target version (records, TTLs, serial) for every division of the stream into messages; ixfr_denotes states what any applicable difference sequences yield (protocol-undetectable faults: dropped record, record moved across the delete/add boundary); fault families at every position (truncation, bad rcode/question on any message, wrong base / backwards serial, UseTCP, a UDP datagram that ends early, surplus after the final SOA, first rrset not the apex SOA, a dropped or type-corrupted SOA at every place of an IXFR, owner-corrupted SOA in add and delete mode, a deletion sent twice in any sequence, an addition read in delete mode) raise and leave the zone as it was; for all message sequences whatsoever an error is never reported after a commit (error_implies_unapplied, unconditional since 3feda1c), and a caller that drives Inbound directly and leaves the with-block before a process_message call returned True — normally or by an exception — finds the zone exactly as before (early_exit_leaves_zone). Tied to the code by a differential correspondence check (state after every message, outcome class, zone with TTLs) and a direct oracle (target equality, must-raise classes, atomicity, no transaction left open, retry behaviour).",
     "note": "Trusted: Lean kernel + propext/Classical.choice/Quot.sound; the statements in lean/Props/C13.lean; the correspondence harness and its generators; name canonicalisation (lower-casing) in the driver; sockets are scripted (timeouts, TSIG outside the model). repair_changed_only_d11 / before_repair_surplus_was_committed record what commit 3feda1c changed; reverting it is reported as a violation with the D11 signature.",
     "technique": "Lean 4 proof (state-machine refinement to set-level difference application up to set equality on coherent zones, induction over version chains and message lists, atomicity invariant, variant bisimulation) + model-vs-implementation correspondence + direct oracle",
     "design_ref": "DESIGN.md §7 C13",
